@@ -139,6 +139,9 @@ func (b *BatchResult) addStats(st simrt.Stats, nontrivial bool) {
 	if float64(st.Steps) > b.Extra["max_steps_in_one_run"] {
 		b.Extra["max_steps_in_one_run"] = float64(st.Steps)
 	}
+	if st.Overrun {
+		b.Extra["runs_cut_by_step_cap"]++
+	}
 	b.Switches += st.Switches
 	b.ClockMs += st.ClockMs
 	b.ULIDs += st.ULIDs
@@ -234,3 +237,29 @@ func loadKnown(path string) {
 func knownActive(id, prop string) bool { return activeKnown[id+"/"+prop] }
 
 func fpString(x uint64) string { return fmt.Sprintf("%016x", x) }
+
+// overrunSkipped counts single-caller runs that were cut by the step cap (only
+// possible when the code under test starts goroutines of its own): their
+// outcome is not a result of the call, so nothing is compared.
+var overrunSkipped int
+
+// settleAborted decides what an aborted run means. In the concurrent variants
+// the engines report deadlock / overrun themselves (C13). In a single-caller
+// run an abort can only happen among goroutines the call itself started: if
+// they all block, the call never returns under this (legal) schedule - which
+// breaks every property about its result; a run cut by the step cap says
+// nothing and is skipped (counted).
+func settleAborted(props []string, multi bool, mm []mismatch, st simrt.Stats) []mismatch {
+	if !st.Aborted || multi {
+		return mm
+	}
+	if st.Deadlock {
+		out := make([]mismatch, 0, len(props))
+		for _, p := range props {
+			out = append(out, mismatch{prop: p, class: "liveness.deadlock", detail: "the goroutines started by the call all block under this schedule: the call never returns"})
+		}
+		return out
+	}
+	overrunSkipped++
+	return nil
+}
